@@ -3211,6 +3211,8 @@ class BSP:
 
         version = self.static_prop_version
         vers_num = self.static_prop_version.version
+        # The game lump header must name the format we are about to write.
+        self.game_lumps[LMP_ID_STATIC_PROPS].version = vers_num
         if version.is_lightmap:
             vers_num = 7
 
